@@ -84,14 +84,14 @@ def getPositionStatus (K : Kern) (pool : Pool) (s : State) (lower upper : Int) :
              getValue K.cx pool p.pending0 p.pending1 price, a0, a1, getValue K.cx pool a0 a1 price,
              K.cx.div p.upperPrice p.initPrice, K.cx.div p.lowerPrice p.initPrice, K.cx.div price p.initPrice]
 
-/-- `estimate_amount(value, lower, upper)`; oracles: `tickEst = base_unit_price_to_tick(price)` and
-    `ratioAmt = Decimal(estimate_ratio(tickEst, lower, upper) * 10 ** (d1 - d0))` -/
+/-- `estimate_amount(value, lower, upper)`; oracles: `tickReal = base_unit_price_to_real_tick(price)` (the exact
+    value of the float) and `ratioAmt = Decimal(estimate_ratio(tickReal, lower, upper) * 10 ** (d1 - d0))` -/
 def estimateAmount (K : Kern) (pool : Pool) (s : State) (value : Rat) (lower upper : Int)
-    (tickEst : Int) (ratioAmt : Rat) : Except Err (Rat × Rat) :=
+    (tickReal : Rat) (ratioAmt : Rat) : Except Err (Rat × Rat) :=
   match priceOf s with
   | .error e => .error e
   | .ok price =>
-    if !(lower < tickEst && tickEst < upper) then .error .demeter else
+    if !(decide ((lower : Rat) < tickReal) && decide (tickReal < (upper : Rat))) then .error .demeter else
     if pool.q0 && price = 0 then .error (if ratioAmt = 0 then .invalidOp else .divByZero) else
     let rv := if pool.q0 then K.cx.div ratioAmt price else K.cx.mul ratioAmt price
     if K.cx.add rv 1 = 0 then .error (if value = 0 then .invalidOp else .divByZero) else
@@ -109,9 +109,9 @@ def decFloorDiv (a : Rat) (b : Rat) : Except Err Int :=
   if q.natAbs ≥ pow10 35 then .error .invalidOp else .ok q
 
 /-- `estimate_liquidity(value, position)` (repaired: the one-sided branches follow the token order).
-    oracles: `est` = the float log estimate inside `sqrt_price_x96_to_tick`; `tickEst`, `ratioAmt` as above. -/
+    oracles: `est` = the float log estimate inside `sqrt_price_x96_to_tick`; `tickReal`, `ratioAmt` as above. -/
 def estimateLiquidity (K : Kern) (pool : Pool) (s : State) (value : Rat) (lower upper : Int)
-    (est : Int) (tickEst : Int) (ratioAmt : Rat) : Except Err (Int × Rat × Rat) :=
+    (est : Int) (tickReal : Rat) (ratioAmt : Rat) : Except Err (Int × Rat × Rat) :=
   match priceOf s with
   | .error e => .error e
   | .ok price =>
@@ -140,7 +140,7 @@ def estimateLiquidity (K : Kern) (pool : Pool) (s : State) (value : Rat) (lower 
           | .error e => .error e
           | .ok l => .ok (l, 0, a1)
         else
-          match estimateAmount K pool s value lower upper tickEst ratioAmt with
+          match estimateAmount K pool s value lower upper tickReal ratioAmt with
           | .error e => .error e
           | .ok (a0, a1) =>
             match K.newPos pool sqrt lower upper a0 a1 with
